@@ -146,14 +146,13 @@ Section Live.
             (apply mu_setw2_lt; auto; unfold wmeasure, with_pc, recv_w; fold w b; rewrite Epc; cbn; lia).
         * injection E as <-. apply mu_setw_lt; [exact Ei|]. unfold wmeasure, with_pc. fold w. rewrite Epc. cbn. lia.
       + (* After: uses the invariant of the new state for pos' <= size *)
-        injection E as <-.
-        pose proof (p_pos _ _ _ _ _ _ _ I' i Ei') as Hp'.
-        pose proof (emit_end_le H min max d data Hmin Hmax Hpos nw span Hspan _ i I' Ei') as Hle'.
-        rewrite getw_setw in Hp' by exact Ei. rewrite Nat.eqb_refl in Hp'. cbn [w_pos] in Hp'.
-        apply mu_setw_lt; [exact Ei|]. unfold wmeasure. fold w. rewrite Epc. cbn [w_pos w_pc w_emit w_cons rank].
-        rewrite app_length.
-        rewrite null_chunks_length. set (k := n / max) in *.
-        assert (k <= k * max) by nia. lia.
+        destruct (n <? max); injection E as <-.
+        * apply mu_setw_lt; [exact Ei|]. unfold wmeasure, with_pc. fold w. rewrite Epc. cbn. lia.
+        * pose proof (p_pos _ _ _ _ _ _ _ I' i Ei') as Hp'.
+          pose proof (emit_end_le H min max d data Hmin Hmax Hpos nw span Hspan _ i I' Ei') as Hle'.
+          rewrite getw_setw in Hp' by exact Ei. rewrite Nat.eqb_refl in Hp'. cbn [w_pos] in Hp'.
+          apply mu_setw_lt; [exact Ei|]. unfold wmeasure. fold w. rewrite Epc. cbn [w_pos w_pc w_emit w_cons rank].
+          rewrite app_length. cbn [length]. lia.
       + set (j := w_next w) in *. set (b := getw s j) in *.
         destruct ((j <? nworkers s) && negb (w_active b) && (length (w_emit b) <=? w_cons b)); injection E as <-;
           (apply mu_setw_lt; [exact Ei|]; unfold wmeasure, with_pc; fold w; rewrite Epc; cbn; lia).
